@@ -80,9 +80,10 @@ class C12(flow.Spec):
                'parseObjectArgs with all nine mutually recursive functions in that mode - in-line term lists, names resolved with Find while '
                'parsing, the argument count of a called Method read from the Method object, strict term arguments attached and detached, '
                'popPkgEnd - and the final popping of the pkgEnd stack) never panics from ANY state with R, valid indexes, the reader / whole-parser '
-               'invariant, live scopes, room for 8 objects per table byte, and every Method typed (two leading children without deferred / '
-               'field-list rows, the second a number); R, the invariants and the Method typing hold again, the pool grows by <= 8*len+3.  '
-               'NOT proved: the derivation of the Method typing from the earlier passes; fuel is NOT analysed',
+               'invariant, live scopes, room for 8 objects per table byte, and every Method typed (TM NoX: two leading children without deferred / '
+               'field-list rows - the first a CHILDLESS pOpIntNamePath object with the name-path row, the second a pOpBytePrefix object with its row '
+               'and a number); R, the invariants and the Method typing hold again, also for the Methods the block creates, the pool grows by <= 8*len+3.  '
+               'Fuel is NOT analysed',
                'C12_parse_total_partial_nopanic_deferred_walk: the WHOLE of parseDeferredBlocks - the depth-first walk from any live object (first / '
                'next links, `next` re-read after each child, no descent below a parsed deferred object) that parses every pending deferred object '
                '(Defer row, handle of the current table: Buffer, While, BankField) as in the block theorem - never panics and re-establishes R, the '
@@ -104,17 +105,16 @@ class C12(flow.Spec):
                'resolveMethodCalls whenever it holds of the pool ParseAML starts with',
                'C12_parse_total_partial_nopanic_rest: ALL passes after connectNamedObjArgs chained exactly as in parseAML_body (parse_rest = resolve loop, '
                'then parse_tail; lemma parseAML_body_rest) never panic from any state with R, valid indexes, reader / whole-parser invariants, empty scope '
-               'stack, live parentless ScopeBlock root, the Scope-directive shape, TM2 (Method typing with plain leading children), PEND (pending deferred '
+               'stack, live parentless ScopeBlock root, the Scope-directive shape, TM3 (the CONCRETE Method typing: first child a childless pOpIntNamePath object with its row, second a pOpBytePrefix object with its row and a number; it implies TM2 = plain leading children), PEND (pending deferred '
                'objects have a parent and are no name-path-or-call objects), the []byte typing, and the memory bound lp + lp*(8*len+3) + 4 <= 2^32-1.  '
                'C12_parse_total_partial_resolve_loop_keeps: the resolve loop preserves TM2, PEND and the typing (abstract invariant threaded through '
                'ParserTotalMerge / ParserTotalResolve, instantiated in ParserTotalShape.v).  C12_parse_total_partial_nopanic_tail_pend: the inductive count '
                'dcnt of the walk theorem is replaced by PEND - the count exists (forest induction by depth) and is bounded by the pool size '
-               '(ParserTotalChain.v).  NOT derived: that passes 1-2 establish the directive shape, TM2 and PEND; fuel is NOT analysed',
+               '(ParserTotalChain.v).  Fuel is NOT analysed',
                'C12_parse_total_partial_nopanic_rest2: ALL passes after the FIRST one chained exactly as in parseAML_body (parse_rest2 = '
                'connectNamedObjArgs(0), counter reset, parse_rest; lemma parseAML_body_rest2) never panic from any state with R, valid indexes, reader / '
-               'whole-parser invariants, empty scope stack, []byte typing, the memory bound and SH (root facts, Scope-directive shape, TM2, PEND): '
-               'connectNamedObjArgs preserves SH (abstract invariant threaded through the pass, ParserTotalConn2.v / ParserTotalPass2.v).  The ONLY step of '
-               'ParseAML not covered by a chained no-panic theorem is "the first pass establishes SH"',
+               'whole-parser invariants, empty scope stack, []byte typing, the memory bound and SH3 (root facts, Scope-directive shape, TM2, PEND, TM3): '
+               'connectNamedObjArgs preserves SH3 (abstract invariant threaded through the pass, ParserTotalConn2.v / ParserTotalPass2.v)',
                'C12_parse_total_partial_first_pass_shape: the FIRST PASS from the initial state of any table over any pool with R, valid indexes, live '
                'parentless ScopeBlock root, TM2 and no object carrying the new handle never panics and on success leaves an empty scope '
                'stack and LI (root facts, TM2 for all Methods incl. the new ones, PEND, the structure AND the names of the Scope directives - zero names, newObject clears the name of a reused slot -, path objects of the directives are new) '
@@ -124,38 +124,45 @@ class C12(flow.Spec):
                'object holds a good path" through the first pass.  '
                'C12_parse_total_never_panics / C12_parse_total_parseAML_never_panics: END TO END and UNCONDITIONAL - parseAML_body (all six passes, '
                'ANY fuel) resp. parseAML from init_state of any table over any pool NEVER panics and re-establishes R / valid indexes / slices-inside; '
-               'the hypotheses speak only about the pool before the call and about sizes: R, valid indexes, live parentless ScopeBlock root, TM2, '
+               'the hypotheses speak only about the pool before the call and about sizes: R, valid indexes, live parentless ScopeBlock root, TM3 (concrete Method typing), '
                '[]byte typing, '
                'slices inside the earlier tables, fresh handle, image of at most 2^28 bytes, and an explicit '
                'quadratic memory bound.  Fuel exhaustion is NOT excluded (fuel is not analysed)',
                'C12_parse_total_first_table_never_panics / C12_parse_total_load_first_table_never_panics: the FIRST TABLE with no abstract hypothesis: '
                'over the pool CreateDefaultScopes builds from the empty tree, ParseAML of the image of ANY payload of at most 10000 bytes never panics '
                '(load [payload] never has outcome class 2); the size bound is what the quadratic memory hypothesis allows (ParserTotalLoad.v).  '
-               'C12_parse_total_post_root: when ParseAML returns SUCCESS the pool again has a live parentless ScopeBlock in slot 0 and the []byte typing '
-               '(an abstract tree invariant K is threaded through parseDeferredBlocks / resolveMethodCalls / connectNonNamedObjArgs: sections Inv of '
-               'ParserTotalNonNamed.v / ParserTotalCalls.v with hypotheses Kmove / Kupd, deferred_tail_post, rest_post, rest2_post, parseAML_body_post; '
-               'instance K = "slot 0 holds a ScopeBlock").  C12_parse_total_handles: no function of any pass changes the handle of a slot or of the '
-               'parser, new objects get the handle of the table (judgement hb, ParserTotalHandle.v).  '
-               'C12_parse_total_parseAML_keeps_invariant_mod: a successful ParseAML re-establishes INV (= the pool hypotheses of the end-to-end '
-               'theorem + handle bound) for the next handle MODULO ONE conjunct, RES = "the Methods of the returned pool are typed (TM2)".  '
-               'C12_parse_total_load_sequence_never_panics_mod / C12_parse_total_load_never_panics_mod: loading ANY NUMBER of tables never panics '
-               'MODULO that residue at each step (SEQ: fits = image_small + quadratic memory bound over the pool at that moment, and RES of each '
-               'returned state); non-vacuity: a concrete two-table load (C12_load_sequence_nonvacuous).  NOT proved: ParseAML re-establishes TM2.  '
+               'C12_parse_total_post: when ParseAML returns SUCCESS every hypothesis about the pool is RE-ESTABLISHED - live parentless ScopeBlock in slot 0, '
+               '[]byte typing, Method typing TM3 (an abstract tree invariant K is threaded through all passes: sections Inv of ParserTotalNonNamed.v / '
+               'ParserTotalCalls.v with hypotheses Kmove / Kupd, deferred_tail_post, rest_post, rest2_post, parseAML_body_post; instance K = "slot 0 holds '
+               'a ScopeBlock and TM3": first pass LI3, connectNamedObjArgs SH3, resolve loop KS3, last two passes TM3_move / TM3_upd; for '
+               'parseDeferredBlocks the block proof itself now carries the concrete typing - mtyped of ParserTotalDefer.v includes the rows and the '
+               'childlessness of the name path, the specifications of parseArg / parseStrictTermArg / parseNextObject / parseNamePathOrMethodCall / the '
+               'term-list and call-argument loops have the precondition "the object whose arguments are parsed / on top of the scope stack does not '
+               'carry the name-path row", discharged at every call site: a new ScopeBlock, a new MethodCall object, an object whose row has arguments).  '
+               'C12_parse_total_handles: no function of any pass changes the handle of a slot or of the parser, new objects get the handle of the table '
+               '(judgement hb, ParserTotalHandle.v).  '
+               'C12_parse_total_parseAML_keeps_invariant: a successful ParseAML re-establishes the loop invariant INV (= the pool hypotheses of the '
+               'end-to-end theorem + "every handle is below the next handle") for the next handle.  '
+               'C12_parse_total_load_sequence_never_panics / C12_parse_total_load_never_panics: UNCONDITIONAL - loading ANY NUMBER of tables (load: '
+               'CreateDefaultScopes, then the tables with handles 1, 2, ...; the loop stops at the first table that fails to parse) never has outcome '
+               'class 2 (panic); the ONLY hypothesis about the payloads is the size condition SEQ: for each table in turn, bytes below 256, image of at '
+               'most 2^28 bytes and the quadratic memory bound over the pool at that moment.  Non-vacuity: a concrete two-table load '
+               '(C12_load_sequence_nonvacuous).  Fuel exhaustion (class 3) is NOT excluded.  '
                'C12_parse_total_partial_resolveMethodCalls_keeps_methods / _connectNonNamedObjArgs_keeps_methods / C12_parse_total_methods_TM3_TM2: '
-               'the concrete Method typing TM3 (below) implies TM2 and IS preserved by each of the last two passes from any state with R, valid '
-               'indexes, slices inside, []byte typing and a live parentless root (ParserTotalMeth.v; non-vacuity on a pool that holds a Method).  '
-               'TM2 as stated is not an invariant of resolveMethodCalls / connectNonNamedObjArgs in the abstract (a Method whose first child is a '
-               'name-path-or-call object or has children satisfies TM2, and the pass may then move the flags argument away); the invariant that is '
-               'preserved is the concrete typing (first child a CHILDLESS pOpIntNamePath object with its row, second a pOpBytePrefix object with its '
-               'row and a number).  TM3 IS threaded through the first pass (LI3), connectNamedObjArgs (SH3), the resolve loop (KS3), the last two '
-               'passes, and parseDeferredBlocks for the Methods that existed before it (C12_parse_total_partial_deferred_keeps_old_methods: DEF3new -> DEF3).  '
-               'C12_parse_total_parseAML_keeps_invariant_mod_deferred / C12_parse_total_load_sequence_never_panics_mod_deferred / '
-               'C12_parse_total_load_never_panics_mod_deferred: MODULO THE SINGLE PROPOSITION DEF3new ("the Method objects CREATED by a successful '
-               'parseDeferredBlocks - Methods inside While / Buffer bodies - satisfy TM3"; a statement about the model, not about a run) a successful '
-               'ParseAML re-establishes the whole loop invariant INV3 and loading ANY NUMBER of tables never panics, the only hypothesis about the '
-               'payloads being the sizes (SEQ3: image_small and the quadratic memory bound over the pool at each step).  DEF3new is NOT proved: it '
-               'needs a typing of the scope stack in parseModeAllBlocks (the object on top of the scope stack / whose arguments are parsed is never '
-               'the name path of a Method) that the block proof of parseDeferredBlocks does not carry yet',
+               'TM3 implies TM2 and is preserved by each of the last two passes taken alone (ParserTotalMeth.v; non-vacuity on a pool that holds a '
+               'Method).  TM2 as stated is not an invariant of those passes in the abstract (a Method whose first child is a name-path-or-call object '
+               'or has children satisfies TM2, and the pass may then move the flags argument away) - that is why the loop invariant is TM3',
+               'NEVER A HANG for the tree walks - C12_parse_total_partial_fuel_connectNamedObjArgs (pass 2), _fuel_resolveMethodCalls (pass 5), '
+               '_fuel_connectNonNamedObjArgs (pass 6), _fuel_tail2 (5 and 6 chained as in ParseAML): run with at least TWICE AS MUCH FUEL AS THE '
+               'POOL HAS SLOTS these passes RETURN - neither Panic nor OutOfFuel - from any state with R, valid indexes, slices inside (and the '
+               '[]byte typing, live parentless root).  Measure: the walk from an object needs <= 2 * size of its subtree (+ the siblings that '
+               'follow it, which attachSiblingsAsArgs(useParent) may take); the loop over the first children of an object <= 2 * size of the '
+               'subtrees still to visit + children done + following siblings + 1.  The specifications of ParserTotalConn2 / NonNamed / Calls now '
+               'say "out of fuel only if the fuel is below the measure" (wp with the measure as the OutOfFuel case), sizes exist and are bounded '
+               'by the pool (ParserTotalFuel.v: duplicate-free list of live descendants).  C12_parse_total_fuel_enough: ParseAML\'s fuel '
+               'parse_fuel(len + pool0) = 64 + 8*(len + pool0) >= 2 * pool whenever pool <= pool0 + 4*len + 2 (the first-pass bound).  NOT proved: '
+               'the fuel of the resolve loop (pass 3) and of parseDeferredBlocks (pass 4), hence no combined "ParseAML returns" theorem - in the '
+               'end-to-end theorems OutOfFuel is still an allowed outcome',
                'the unproved parts of C12_full_parse_total (no Panic / OutOfFuel and R for the later passes, outcome class of load) are covered '
                'by the correspondence of the extracted model (explicit Panic / OutOfFuel outcomes, all passes modelled) with the real parser '
                'and by the harness monitors (outcome class, watchdog, independent link checker, PrettyPrint)',
